@@ -556,7 +556,10 @@ def run(ctx):
     res = ctx.pmap(explore_history, ctx.rotate(items), chunksize=2)
     check_harness_errors(res)
     ctx.add_results(res)
-    pair_h = histories(ctx.pick(1, 2)) if not ctx.quick else [h for h in histories(2) if len(h) == 1 or h[1] in TAGOPS and h[0] in ("chain", "tags")]
+    if ctx.quick:
+        pair_h = [h for h in histories(2) if len(h) == 1 or h[1] in TAGOPS and h[0] in ("chain", "tags")]
+    else:
+        pair_h = [h for h in histories(2) if len(h) == 1 or h[1] in TAGOPS]  # 8 + 32 histories -> 1600 ordered pairs
     pairs = [(a, b, m) for a in pair_h for b in pair_h for m in ((("push", "pull"),) if ctx.quick else (("push", "pull"), ("export-import", "push")))]
     res2 = ctx.pmap(explore_pair, ctx.rotate(pairs), chunksize=4)
     check_harness_errors(res2)
